@@ -1,4 +1,17 @@
-import PsutilModel.Proofs.C08
+/-
+  Props/C08.lean — property theorems for C08 (virtual_memory / swap_memory follow the documented
+  formulas). Helper lemmas live in Proofs/C08*.lean.
+
+  `cfg` is built from Generated/C08.lean, which the translator rewrites from /repo's source on
+  every run; `cfg_good` is the proof obligation that breaks when a dictionary key, a factor, a
+  guard, a prefix, `round_=1` or the positional layout of `svmem(...)`/`sswap(...)` changes.
+
+  A `World` is a kernel state the renderers cover: any list of /proc/meminfo entries (so ANY
+  subset of the optional keys, any magnitudes, any padding, with or without ` kB`), an optional
+  /proc/zoneinfo (any lines, of which the `low` ones are watermarks) and a page size.
+  `w.run` is the model of `psutil.virtual_memory()` on the rendered TEXT of those files.
+-/
+import PsutilModel.Proofs.C08Refine
 import PsutilModel.Model.C08Gen
 namespace Psutil.C08
 open Spec
@@ -6,5 +19,395 @@ open Spec
 /-- the configuration the translator extracted from the current source is the one the theorems
     below are proved for (keys, factors, guards, prefixes, record layouts) -/
 theorem cfg_good : cfg = kernelCfg ∧ shapeOk = true := by decide
+
+structure World where
+  es : List Entry
+  zs : Option (List ZLine)      -- `none`: /proc/zoneinfo cannot be opened
+  ps : Nat                      -- PAGESIZE
+
+def World.WF (w : World) : Prop := (∀ e ∈ w.es, e.WF) ∧ (∀ l ∈ w.zs, ∀ z ∈ l, z.WF)
+/-- the abstract meminfo map the kernel is showing -/
+def World.m (w : World) : MemInfo := MemInfo.ofEntries w.es
+/-- total of the zones' low watermarks, in bytes -/
+def World.wm (w : World) : Option Nat := w.zs.map fun l => lowSum l * w.ps
+/-- `psutil.virtual_memory()` on the rendered files -/
+def World.run (w : World) : Except Err VmOut :=
+  virtualMemory cfg w.ps (renderMeminfo w.es) (w.zs.map renderZoneinfo)
+
+/-! ### the parsers invert the kernel's renderers -/
+
+/-- parsing the rendered /proc/meminfo succeeds and `mems[b"Name:"]` is the kernel's figure
+    times 1024, for every name (present or not), every entry list, padding and unit suffix -/
+theorem C08_meminfo_roundtrip (es : List Entry) (h : ∀ e ∈ es, e.WF) :
+    ∃ mems, parseMeminfo cfg.vmParse (renderMeminfo es) = .ok mems ∧
+      ∀ k : Bytes, mems.lookup (k ++ [58]) = ((MemInfo.ofEntries es).get k).map (· * 1024) := by
+  rw [cfg_good.1]
+  exact ⟨_, parseMeminfo_render 1024 es h, fun k => lookup_parsed 1024 es k⟩
+
+/-- the zoneinfo loop returns the sum of the `low` watermarks whatever else the file lists -/
+theorem C08_zoneinfo_roundtrip (zs : List ZLine) (h : ∀ z ∈ zs, z.WF) :
+    watermarkLow cfg (linesOf (renderZoneinfo zs)) = .ok (lowSum zs) := by
+  rw [cfg_good.1]; exact watermarkLow_zoneinfo zs h
+
+/-- the vmstat loop finds both counters (×4096) or reports that it did not -/
+theorem C08_vmstat_roundtrip (vs : List VLine) (h : VWF vs) :
+    vmstatLoop cfg (linesOf (renderVmstat vs)) none none =
+      .ok (pairUp ((vmstatGet vs (K "pswpin")).map (· * 4096))
+                  ((vmstatGet vs (K "pswpout")).map (· * 4096))) := by
+  rw [cfg_good.1]; exact vmstatLoop_vmstat vs h
+
+/-! ### virtual_memory -/
+
+/-- MAIN: on every world, whenever the specification makes a promise (MemTotal and MemFree
+    listed) the call succeeds and returns exactly the promised record and warning list -/
+theorem C08_vm_refines (w : World) (hw : w.WF) (s : Vm) (hs : vm w.m w.wm = some s) :
+    w.run = .ok (toOut s) := by
+  unfold World.run virtualMemory
+  rw [cfg_good.1]
+  have hp : parseMeminfo kernelCfg.vmParse (renderMeminfo w.es)
+      = .ok ((w.es.map (kv 1024)).reverse) := parseMeminfo_render 1024 w.es hw.1
+  rw [hp]
+  exact vmCore_spec (bridge_parsed w.es) w.ps w.zs hw.2 s hs
+
+/-- the output is determined: the record of the specification for these totals -/
+theorem vm_out (w : World) (hw : w.WF) (total free : Nat)
+    (ht : w.m.bytes "MemTotal" = some total) (hf : w.m.bytes "MemFree" = some free)
+    (o : VmOut) (hrun : w.run = .ok o) : o = toOut (specVm w.m w.wm total free) := by
+  have := C08_vm_refines w hw _ (vm_eq_specVm w.m w.wm total free ht hf)
+  rw [this] at hrun
+  exact (Except.ok.inj hrun).symm
+
+/-- never fails when MemTotal and MemFree are present — for EVERY entry list, hence every subset
+    of the other keys, every magnitude, with or without zoneinfo -/
+theorem C08_never_fails (w : World) (hw : w.WF)
+    (ht : (w.m.get (K "MemTotal")).isSome = true) (hf : (w.m.get (K "MemFree")).isSome = true) :
+    ∃ o, w.run = .ok o := by
+  obtain ⟨t, ht'⟩ := Option.isSome_iff_exists.mp ht
+  obtain ⟨f, hf'⟩ := Option.isSome_iff_exists.mp hf
+  exact ⟨_, C08_vm_refines w hw _ (vm_eq_specVm w.m w.wm (t * 1024) (f * 1024)
+    (by simp [MemInfo.bytes, ht']) (by simp [MemInfo.bytes, hf']))⟩
+
+section
+variable (w : World) (hw : w.WF) (total free : Nat)
+  (ht : w.m.bytes "MemTotal" = some total) (hf : w.m.bytes "MemFree" = some free)
+  (o : VmOut) (hrun : w.run = .ok o)
+include hw ht hf hrun
+
+/-- total, free, buffers, cached (page cache + reclaimable slab), shared (Shmem | MemShared),
+    active, inactive (Inactive | sum of the three 2.4 counters), slab: the kernel's figures in
+    bytes, 0 when not listed -/
+theorem C08_fields_exact :
+    o.total = total ∧ o.free = free ∧ o.buffers = buffers w.m ∧ o.cached = cached w.m
+    ∧ o.shared = shared w.m ∧ o.active = active w.m ∧ o.inactive = inactive w.m
+    ∧ o.slab = slab w.m := by
+  rw [vm_out w hw total free ht hf o hrun]
+  simp [toOut, specVm]
+
+/-- used = total - free - cached - buffers, total - free when that is negative -/
+theorem C08_used :
+    o.used = (if (total : Int) - free - o.cached - o.buffers < 0 then (total : Int) - free
+              else (total : Int) - free - o.cached - o.buffers) := by
+  rw [vm_out w hw total free ht hf o hrun]
+  simp [toOut, specVm, used]
+
+/-- available, kernel estimate: MemAvailable > 0 is reported (clamped) -/
+theorem C08_avail_rule_kernel (a : Nat) (ha : w.m.bytes "MemAvailable" = some a) (hpos : 0 < a) :
+    o.avail = clamp a total free := by
+  rw [vm_out w hw total free ht hf o hrun]
+  cases a with
+  | zero => omega
+  | succ a => simp [toOut, specVm, Spec.availRaw, ha]
+
+/-- available, fallback when MemAvailable is absent OR zero and every input of the kernel's
+    algorithm exists: the documented estimate from the low watermarks, truncated like `int()` -/
+theorem C08_avail_rule_fallback
+    (ha : w.m.bytes "MemAvailable" = none ∨ w.m.bytes "MemAvailable" = some 0)
+    (af inf sr wmv : Nat) (h1 : w.m.bytes "Active(file)" = some af)
+    (h2 : w.m.bytes "Inactive(file)" = some inf) (h3 : w.m.bytes "SReclaimable" = some sr)
+    (h4 : w.wm = some wmv) :
+    o.avail = clamp (truncRat (kernelEstimate free wmv af inf sr)) total free := by
+  rw [vm_out w hw total free ht hf o hrun]
+  rcases ha with ha | ha <;> simp [toOut, specVm, Spec.availRaw, ha, fallbackEstimate, h1, h2, h3, h4]
+
+/-- available, fallback when MemAvailable is absent or zero and an input of the estimate is
+    missing (or /proc/zoneinfo unreadable): free + cached -/
+theorem C08_avail_rule_free_plus_cached
+    (ha : w.m.bytes "MemAvailable" = none ∨ w.m.bytes "MemAvailable" = some 0)
+    (hmiss : w.m.bytes "Active(file)" = none ∨ w.m.bytes "Inactive(file)" = none
+              ∨ w.m.bytes "SReclaimable" = none ∨ w.wm = none) :
+    o.avail = clamp ((free + (w.m.bytes "Cached").getD 0 : Nat) : Int) total free := by
+  rw [vm_out w hw total free ht hf o hrun]
+  have hfb : fallbackEstimate w.m free w.wm = ((free + (w.m.bytes "Cached").getD 0 : Nat) : Int) := by
+    unfold fallbackEstimate
+    rcases hmiss with h | h | h | h
+    · rw [h]
+    · rw [h]; cases w.m.bytes "Active(file)" <;> rfl
+    · rw [h]; cases w.m.bytes "Active(file)" <;> cases w.m.bytes "Inactive(file)" <;> rfl
+    · rw [h]; cases w.m.bytes "Active(file)" <;> cases w.m.bytes "Inactive(file)"
+        <;> cases w.m.bytes "SReclaimable" <;> rfl
+  rcases ha with ha | ha <;> simp [toOut, specVm, Spec.availRaw, ha, hfb]
+
+/-- available lies in [0, total] whenever free ≤ total -/
+theorem C08_avail_in_range (hle : free ≤ total) : 0 ≤ o.avail ∧ o.avail ≤ o.total := by
+  rw [vm_out w hw total free ht hf o hrun]
+  exact clamp_range _ total free hle
+
+/-- percent is (total - available) / total * 100 rounded to one decimal (0 for a zero total) -/
+theorem C08_percent : IsRound1 (percentExact o.total o.avail) ((o.percent : ℚ) / 10) := by
+  rw [vm_out w hw total free ht hf o hrun, percentExact_cast]
+  exact usagePercent_isRound1 _ _
+
+/-- 0 ≤ percent ≤ 100 whenever free ≤ total (percent is kept in tenths) -/
+theorem C08_percent_range (hle : free ≤ total) : 0 ≤ o.percent ∧ o.percent ≤ 1000 := by
+  rw [vm_out w hw total free ht hf o hrun]
+  have hr := clamp_range (Spec.availRaw w.m free w.wm) total free hle
+  exact usagePercent_range _ _ (by simp only [toOut, specVm]; omega) (by simp only [toOut, specVm]; omega)
+
+theorem C08_zero_total_percent_zero (h0 : total = 0) : o.percent = 0 := by
+  rw [vm_out w hw total free ht hf o hrun]
+  simp [toOut, specVm, usagePercentScaled, h0]
+
+/-- a metric is named in the warning exactly when its source keys are not listed (slab never is);
+    `available` exactly when the estimate came out negative; nothing else is ever named -/
+theorem C08_missing_warns_exactly :
+    ("buffers" ∈ o.missing ↔ w.m.get (K "Buffers") = none)
+    ∧ ("cached" ∈ o.missing ↔ w.m.get (K "Cached") = none)
+    ∧ ("shared" ∈ o.missing ↔ w.m.get (K "Shmem") = none ∧ w.m.get (K "MemShared") = none)
+    ∧ ("active" ∈ o.missing ↔ w.m.get (K "Active") = none)
+    ∧ ("inactive" ∈ o.missing ↔ w.m.get (K "Inactive") = none
+          ∧ ¬ ((w.m.get (K "Inact_dirty")).isSome = true ∧ (w.m.get (K "Inact_clean")).isSome = true
+                ∧ (w.m.get (K "Inact_laundry")).isSome = true))
+    ∧ ("available" ∈ o.missing ↔ Spec.availRaw w.m free w.wm < 0)
+    ∧ "slab" ∉ o.missing
+    ∧ (∀ n ∈ o.missing, n ∈ ["buffers", "cached", "shared", "active", "inactive", "available"]) := by
+  rw [vm_out w hw total free ht hf o hrun]
+  simp only [toOut, specVm, warned_mem]
+  refine ⟨?_, ?_, ?_, ?_, ?_, ?_, ?_, ?_⟩
+  · simp
+  · simp
+  · simp
+  · simp
+  · cases w.m.get (K "Inactive") <;> cases w.m.get (K "Inact_dirty")
+      <;> cases w.m.get (K "Inact_clean") <;> cases w.m.get (K "Inact_laundry") <;> simp
+  · simp
+  · simp
+  · intro n hn
+    rcases hn with h | h | h | h | h | h <;> simp [h.2]
+
+/-- … and the metric named in the warning (or the unlisted slab) is reported as 0 -/
+theorem C08_missing_reports_zero :
+    ("buffers" ∈ o.missing → o.buffers = 0) ∧ ("cached" ∈ o.missing → o.cached = 0)
+    ∧ ("shared" ∈ o.missing → o.shared = 0) ∧ ("active" ∈ o.missing → o.active = 0)
+    ∧ ("inactive" ∈ o.missing → o.inactive = 0) ∧ ("available" ∈ o.missing → o.avail = 0)
+    ∧ (w.m.get (K "Slab") = none → o.slab = 0) := by
+  have hm := C08_missing_warns_exactly w hw total free ht hf o hrun
+  obtain ⟨h1, h2, h3, h4, h5, h6, _, _⟩ := hm
+  rw [vm_out w hw total free ht hf o hrun] at h1 h2 h3 h4 h5 h6 ⊢
+  refine ⟨fun h => ?_, fun h => ?_, fun h => ?_, fun h => ?_, fun h => ?_, fun h => ?_, fun h => ?_⟩
+  · simp [toOut, specVm, buffers, MemInfo.bytes, h1.mp h]
+  · simp [toOut, specVm, cached, MemInfo.bytes, h2.mp h]
+  · simp [toOut, specVm, shared, MemInfo.bytes, (h3.mp h).1, (h3.mp h).2]
+  · simp [toOut, specVm, active, MemInfo.bytes, h4.mp h]
+  · obtain ⟨hi, hn⟩ := h5.mp h
+    simp only [toOut, specVm, inactive, MemInfo.bytes, hi, Option.map_none]
+    cases h7 : w.m.get (K "Inact_dirty") <;> cases h8 : w.m.get (K "Inact_clean")
+      <;> cases h9 : w.m.get (K "Inact_laundry") <;> simp_all
+  · have := h6.mp h
+    simp [toOut, specVm, clamp, this]
+  · simp [toOut, specVm, slab, MemInfo.bytes, h]
+
+end
+
+/-! ### the boundary of the range claim (stated by the property itself: "whenever free <= total") -/
+
+/-- full-strength reading "available is always within [0, total]" -/
+def C08_avail_in_range_Full : Prop :=
+  ∀ (w : World) (o : VmOut), w.WF → w.run = .ok o → 0 ≤ o.avail ∧ o.avail ≤ o.total
+
+def wFreeAboveTotal : World :=
+  ⟨[⟨K "MemTotal", 100, 0, true⟩, ⟨K "MemFree", 400, 0, true⟩, ⟨K "MemAvailable", 500, 0, true⟩],
+   none, 4096⟩
+
+theorem wFreeAboveTotal_wf : wFreeAboveTotal.WF := by
+  refine ⟨?_, by intro l hl; cases hl⟩
+  intro e he
+  simp only [wFreeAboveTotal, List.mem_cons, List.not_mem_nil, or_false] at he
+  rcases he with rfl | rfl | rfl <;> exact ⟨by decide, by unfold NoWs; decide⟩
+
+/-- it does not hold when a container shows free > total: available > total is replaced by
+    free (as procps does), which is then above total too. Witness replayed on the real code by
+    the harness (corpus:free_gt_total): available = 409600 > total = 102400, percent = -300.0 -/
+theorem C08_avail_in_range_needs_free_le_total : ¬ C08_avail_in_range_Full := by
+  intro h
+  obtain ⟨o, ho⟩ := C08_never_fails wFreeAboveTotal wFreeAboveTotal_wf (by decide) (by decide)
+  have hr := (h wFreeAboveTotal o wFreeAboveTotal_wf ho).2
+  have ht : wFreeAboveTotal.m.bytes "MemTotal" = some 102400 := by decide
+  have hf : wFreeAboveTotal.m.bytes "MemFree" = some 409600 := by decide
+  have ha : wFreeAboveTotal.m.bytes "MemAvailable" = some 512000 := by decide
+  have h1 := C08_avail_rule_kernel wFreeAboveTotal wFreeAboveTotal_wf _ _ ht hf o ho 512000 ha (by decide)
+  have h2 := (C08_fields_exact wFreeAboveTotal wFreeAboveTotal_wf _ _ ht hf o ho).1
+  rw [h1, h2] at hr
+  revert hr
+  decide
+
+/-! ### swap_memory -/
+
+structure SwapWorld where
+  es : List Entry
+  sys : Sysinfo                 -- what `cext.linux_sysinfo()` would answer
+  vs : Option (List VLine)      -- `none`: /proc/vmstat cannot be opened
+
+def SwapWorld.WF (w : SwapWorld) : Prop := (∀ e ∈ w.es, e.WF) ∧ (∀ l ∈ w.vs, VWF l)
+def SwapWorld.m (w : SwapWorld) : MemInfo := MemInfo.ofEntries w.es
+def SwapWorld.spec (w : SwapWorld) : Swap :=
+  swap w.m (w.sys.total * w.sys.unit) (w.sys.free * w.sys.unit) (w.vs.map vmstatGet)
+/-- `psutil.swap_memory()` on the rendered files with the scripted sysinfo -/
+def SwapWorld.run (w : SwapWorld) : Except Err SwapOut :=
+  swapMemory cfg (renderMeminfo w.es) w.sys (w.vs.map renderVmstat)
+
+/-- MAIN: swap_memory never fails and returns the promised record, for every meminfo (with or
+    without SwapTotal/SwapFree), every sysinfo answer, every vmstat (or none) -/
+theorem C08_swap_refines (w : SwapWorld) (hw : w.WF) : w.run = .ok (toSwapOut w.spec) := by
+  unfold SwapWorld.run swapMemory
+  rw [cfg_good.1]
+  have hp : parseMeminfo kernelCfg.swParse (renderMeminfo w.es)
+      = .ok ((w.es.map (kv 1024)).reverse) := parseMeminfo_render 1024 w.es hw.1
+  rw [hp]
+  exact swapCore_spec (bridge_parsed w.es) w.sys w.vs hw.2
+
+section
+variable (w : SwapWorld) (hw : w.WF) (o : SwapOut) (hrun : w.run = .ok o)
+include hw hrun
+
+theorem swap_out : o = toSwapOut w.spec := by
+  rw [C08_swap_refines w hw] at hrun
+  exact (Except.ok.inj hrun).symm
+
+/-- used = total - free -/
+theorem C08_swap_used : o.used = (o.total : Int) - o.free := by
+  rw [swap_out w hw o hrun]
+  simp [toSwapOut, SwapWorld.spec, swap]
+
+/-- totals come from /proc/meminfo (kB × 1024) when both keys are listed; sysinfo not consulted -/
+theorem C08_swap_meminfo (t f : Nat) (h1 : w.m.bytes "SwapTotal" = some t)
+    (h2 : w.m.bytes "SwapFree" = some f) : o.total = t ∧ o.free = f ∧ o.usedSysinfo = false := by
+  rw [swap_out w hw o hrun]
+  simp [toSwapOut, SwapWorld.spec, swap, h1, h2]
+
+/-- … and from sysinfo(2) × unit when either is missing -/
+theorem C08_swap_sysinfo_fallback
+    (h : w.m.bytes "SwapTotal" = none ∨ w.m.bytes "SwapFree" = none) :
+    o.total = w.sys.total * w.sys.unit ∧ o.free = w.sys.free * w.sys.unit
+    ∧ o.usedSysinfo = true := by
+  rw [swap_out w hw o hrun]
+  rcases h with h | h
+  · simp [toSwapOut, SwapWorld.spec, swap, h]
+  · cases h1 : w.m.bytes "SwapTotal" <;> simp [toSwapOut, SwapWorld.spec, swap, h, h1]
+
+/-- percent is used / total * 100 rounded to one decimal (0 for a zero total) -/
+theorem C08_swap_percent : IsRound1 (swapPercentExact o.total o.used) ((o.percent : ℚ) / 10) := by
+  rw [swap_out w hw o hrun, swapPercentExact_eq]
+  exact usagePercent_isRound1 _ _
+
+theorem C08_swap_percent_range (hle : o.free ≤ o.total) : 0 ≤ o.percent ∧ o.percent ≤ 1000 := by
+  have hu := C08_swap_used w hw o hrun
+  rw [swap_out w hw o hrun] at hle hu ⊢
+  simp only [toSwapOut] at hle hu ⊢
+  exact usagePercent_range _ _ (by omega) (by omega)
+
+theorem C08_swap_zero_total (h0 : o.total = 0) : o.percent = 0 := by
+  rw [swap_out w hw o hrun] at h0 ⊢
+  simp only [toSwapOut] at h0 ⊢
+  simp [usagePercentScaled, h0]
+
+/-- sin / sout are the kernel's pswpin / pswpout page counts × 4096, without a warning -/
+theorem C08_swap_sin_sout (l : List VLine) (hl : w.vs = some l) (i u : Nat)
+    (hi : vmstatGet l (K "pswpin") = some i) (hu : vmstatGet l (K "pswpout") = some u) :
+    o.sin = i * 4096 ∧ o.sout = u * 4096 ∧ o.warned = false := by
+  rw [swap_out w hw o hrun]
+  simp [toSwapOut, SwapWorld.spec, swap, hl, hi, hu]
+
+/-- unreadable /proc/vmstat or counters not listed: both reported 0, with the warning -/
+theorem C08_swap_counters_missing
+    (h : w.vs = none ∨ ∃ l, w.vs = some l ∧
+          (vmstatGet l (K "pswpin") = none ∨ vmstatGet l (K "pswpout") = none)) :
+    o.sin = 0 ∧ o.sout = 0 ∧ o.warned = true := by
+  rw [swap_out w hw o hrun]
+  rcases h with h | ⟨l, hl, h | h⟩
+  · simp [toSwapOut, SwapWorld.spec, swap, h]
+  · simp [toSwapOut, SwapWorld.spec, swap, hl, h]
+  · cases h1 : vmstatGet l (K "pswpin") <;> simp [toSwapOut, SwapWorld.spec, swap, hl, h, h1]
+
+end
+
+/-! ### the hypotheses are satisfiable -/
+
+def wExample : World :=
+  ⟨[⟨K "MemTotal", 1000, 5, true⟩, ⟨K "MemFree", 400, 3, true⟩, ⟨K "Active(file)", 7, 0, true⟩,
+    ⟨K "Inactive(file)", 8, 0, true⟩, ⟨K "SReclaimable", 5, 0, true⟩, ⟨K "HugePages_Total", 0, 7, false⟩],
+   some [.other 0 (K "Node 0, zone   Normal"), .low 8 5 200, .other 8 (K "high     240")], 4096⟩
+
+theorem wExample_wf : wExample.WF := by
+  refine ⟨?_, ?_⟩
+  · intro e he
+    simp only [wExample, List.mem_cons, List.not_mem_nil, or_false] at he
+    rcases he with rfl | rfl | rfl | rfl | rfl | rfl <;> exact ⟨by decide, by unfold NoWs; decide⟩
+  · intro l hl z hz
+    simp only [wExample, Option.mem_def, Option.some.injEq] at hl
+    subst hl
+    simp only [List.mem_cons, List.not_mem_nil, or_false] at hz
+    rcases hz with rfl | rfl | rfl
+    · exact ⟨by decide, by decide⟩
+    · trivial
+    · exact ⟨by decide, by decide⟩
+
+/-- a world with MemAvailable missing, all fallback inputs present and watermarks above free:
+    it runs, and the estimate is negative, so `available` is warned about and reported 0 -/
+example : ∃ o, wExample.run = .ok o ∧ "available" ∈ o.missing ∧ o.avail = 0 ∧ o.percent = 1000 := by
+  obtain ⟨o, ho⟩ := C08_never_fails wExample wExample_wf (by decide) (by decide)
+  have ht : wExample.m.bytes "MemTotal" = some 1024000 := by decide
+  have hf : wExample.m.bytes "MemFree" = some 409600 := by decide
+  have hneg : Spec.availRaw wExample.m 409600 wExample.wm < 0 := by
+    have e : Spec.availRaw wExample.m 409600 wExample.wm
+        = Int.tdiv (availHalves 409600 819200 (7168 + 8192) 5120) 2 := by
+      rw [calc_trunc]
+      have h0 : wExample.m.bytes "MemAvailable" = none := by decide
+      have h1 : wExample.m.bytes "Active(file)" = some 7168 := by decide
+      have h2 : wExample.m.bytes "Inactive(file)" = some 8192 := by decide
+      have h3 : wExample.m.bytes "SReclaimable" = some 5120 := by decide
+      have h4 : wExample.wm = some 819200 := by decide
+      simp only [Spec.availRaw, fallbackEstimate, h0, h1, h2, h3, h4]
+    rw [e]
+    decide
+  have hm := (C08_missing_warns_exactly wExample wExample_wf _ _ ht hf o ho).2.2.2.2.2.1.mpr hneg
+  have hz := (C08_missing_reports_zero wExample wExample_wf _ _ ht hf o ho).2.2.2.2.2.1 hm
+  refine ⟨o, ho, hm, hz, ?_⟩
+  rw [vm_out wExample wExample_wf _ _ ht hf o ho] at hz ⊢
+  simp only [toOut] at hz ⊢
+  rw [hz]
+  decide
+
+def swExample : SwapWorld :=
+  ⟨[⟨K "SwapTotal", 1000, 5, true⟩, ⟨K "SwapFree", 400, 3, true⟩], ⟨5, 3, 4096⟩,
+   some [⟨K "pgpgin", 77⟩, ⟨K "pswpin", 3⟩, ⟨K "pswpout", 9⟩]⟩
+
+theorem swExample_wf : swExample.WF := by
+  refine ⟨?_, ?_⟩
+  · intro e he
+    simp only [swExample, List.mem_cons, List.not_mem_nil, or_false] at he
+    rcases he with rfl | rfl <;> exact ⟨by decide, by unfold NoWs; decide⟩
+  · intro l hl
+    simp only [swExample, Option.mem_def, Option.some.injEq] at hl
+    subst hl
+    refine ⟨?_, ?_, by decide⟩
+    · intro x hx
+      simp only [List.mem_cons, List.not_mem_nil, or_false] at hx
+      rcases hx with rfl | rfl | rfl <;> exact ⟨by decide, by unfold NoWs; decide⟩
+    · intro x hx
+      simp only [List.mem_cons, List.not_mem_nil, or_false] at hx
+      rcases hx with rfl | rfl | rfl <;> exact ⟨by decide, by decide⟩
+
+example : ∃ o, swExample.run = .ok o ∧ o.sin = 12288 ∧ o.sout = 36864 ∧ o.total = 1024000 := by
+  refine ⟨_, C08_swap_refines swExample swExample_wf, ?_, ?_, ?_⟩ <;> decide
 
 end Psutil.C08
